@@ -21,7 +21,7 @@ def errJson (kind what : String) : Json :=
 def controlsModel (root : Str) (lists : List Str) (rows : List Cells) (settings : Cells) : Json :=
   let unsup (w : String) := Json.mkObj [("outcome", "unsupported"), ("why", Json.str w)]
   if !triggersOk lists rows then unsup "trigger shape" else
-  let (nrows, tlBad) := TableList.expand .off (number 2 rows)
+  let nrows := TableList.sheetRows rows
   let prows := nrows.map fun nr => (nr.1, (prep nr.2).1)
   match allControlsN lists nrows with
   | .error (.unsup w) => unsup w
@@ -31,13 +31,12 @@ def controlsModel (root : Str) (lists : List Str) (rows : List Cells) (settings 
      | .error w' => unsup w'
      | .ok _ => errJson "controls" w)
   | .ok cs =>
-    match formOutN root lists prows settings with
+    match TableList.formOutT root lists rows settings with
     | .error (.unsupported w) => unsup w
     | .error (.err e) => Json.mkObj [("outcome", "error"), ("err", errToJson e)]
     | .error (.unknownType n) => Json.mkObj [("outcome", "error"), ("err", Json.mkObj [("kind", "unknownType"), ("row", n)])]
     | .ok o =>
-      if tlBad then errJson "tableList" "rejected by the table-list checks"
-      else if emptySecL o.items then errJson "emptySection" ""
+      if emptySecL o.items then errJson "emptySection" ""
       else
       Json.mkObj [("outcome", "ok"), ("instance", ntToJson o.inst), ("binds", pathsToJson o.binds),
         ("body", pathsToJson o.body),
